@@ -14,6 +14,7 @@ import Hannibal.Generated.Wiring
 namespace Hannibal
 open AState
 
+set_option maxHeartbeats 400000 in
 theorem c12_step (w : Wiring) (hw : WellWired12 w) (n : Nat) {s s' : AState} {σ : C12St} {l : Label}
     (hi : C12Inv n s σ) (hs : step w s l = some s') :
     ∃ σ', (monC12 (some n)).step σ l = some σ' ∧ C12Inv n s' σ' := by
